@@ -500,7 +500,7 @@ func (u *Unit) useContract(st *State, fr *Frame, in *ssa.Call, fn *ssa.Function,
 // walkSlices visits every byte slice reachable from v (through pointers, up to
 // a small depth).
 func (u *Unit) walkSlices(st *State, v Val, depth int, f func(SliceV)) {
-	if depth > 6 {
+	if depth > 14 {
 		return
 	}
 	switch x := v.(type) {
@@ -539,7 +539,7 @@ var _ = token.NoPos
 
 // walkIfaces visits the opaque interface values reachable from v.
 func (u *Unit) walkIfaces(st *State, v Val, depth int, f func(IfaceV)) {
-	if depth > 6 {
+	if depth > 14 {
 		return
 	}
 	switch x := v.(type) {
